@@ -191,11 +191,28 @@ def run(chk, which="C07"):
                 stmts.append((sid, f'vfy::reify_unit<{x[0]}>("{tag}");'))
                 sid += 1
             if len(L) >= 3:
-                nested = f"au::CommonUnitT<au::CommonUnitT<{L[0][0]}, {L[1][0]}>, {', '.join(x[0] for x in L[2:])}>"
-                tag = f"c{ti}_{li}_nest"
-                entries[tag] = {"list": L, "li": li, "kind": "nest"}
-                stmts.append((sid, f'vfy::reify_relation<{nested}, {common}>("{tag}");'))
-                sid += 1
+                # nesting shapes: a pair (or triple) folded first, on either side of the outer call, incl. two multi-element packs
+                cu = lambda idx: (f"au::CommonUnitT<{', '.join(L[i][0] for i in idx)}>" if len(idx) > 1 else L[idx[0]][0])
+                n = len(L)
+                shapes = []
+                for pair in itertools.combinations(range(n), 2):
+                    rest = [i for i in range(n) if i not in pair]
+                    if n == 4:
+                        shapes += [(pair, tuple(rest)), (tuple(rest), pair)]      # CommonUnitT<CommonUnitT<a,b>, CommonUnitT<c,d>>
+                    else:
+                        shapes += [(pair, (rest[0],)), ((rest[0],), pair)]        # CommonUnitT<CommonUnitT<a,b>, c> and CommonUnitT<c, CommonUnitT<a,b>>
+                if n == 4:
+                    shapes += [((0, 1, 2), (3,)), ((0,), (1, 2, 3)), ((3,), (2, 0, 1))]
+                shapes = [((0, 1), tuple(range(2, n)))] + rnd.sample(shapes, min(len(shapes), 5 if tier == "quick" else 9))
+                for ni, (g1, g2) in enumerate(shapes):
+                    if ni == 0:
+                        nested = f"au::CommonUnitT<au::CommonUnitT<{L[0][0]}, {L[1][0]}>, {', '.join(x[0] for x in L[2:])}>"
+                    else:
+                        nested = f"au::CommonUnitT<{cu(g1)}, {cu(g2)}>"
+                    tag = f"c{ti}_{li}_nest{ni}"
+                    entries[tag] = {"list": L, "li": li, "kind": "nest", "shape": nested}
+                    stmts.append((sid, f'vfy::reify_relation<{nested}, {common}>("{tag}");'))
+                    sid += 1
             # std::common_type of quantities is symmetric
             a, b = L[0][0], L[1][0]
             tag = f"c{ti}_{li}_ct"
@@ -263,8 +280,8 @@ def run(chk, which="C07"):
                     if model.ekey(m) == model.ekey(g) and i in input_tids and tids and input_tids[i] not in tids:
                         chk.violation(f"C07|input_not_reused|list={desc}|i={i}", msg=f"input {L[i][2]} already is the common unit of [{desc}] but the result is a different type")
             for en, ev in evs:
-                if en["kind"] == "nest" and not ev["qty_equiv"]:
-                    chk.violation(f"C07|nesting|list={desc}", msg=f"CommonUnitT<CommonUnitT<A,B>,C...> is not quantity-equivalent to CommonUnitT<A,B,C...> for [{desc}]")
+                if en["kind"] == "nest" and allrat and not ev["qty_equiv"]:  # (promised for rational pairwise ratios only)
+                    chk.violation(f"C07|nesting|list={desc}", msg=f"nested {en['shape'][:300]} is not quantity-equivalent to the flat CommonUnitT of [{desc}]")
                 if en["kind"] == "ct" and not ev["same_type"]:
                     chk.violation(f"C07|common_type_asymmetric|list={desc}", msg=f"std::common_type_t<Q1,Q2> and <Q2,Q1> have different units for [{desc}]")
             if len(chk.cov["samples"]) < 6 and allrat and len(L) >= 3:
